@@ -111,6 +111,8 @@ def run_check(property_id: str, tier: str, args) -> int:
 
         extra = ALL_FEATURES if args.avoid == 'all' else args.avoid.split(',')
         avoid = sorted(set(avoid) | set(extra))
+    if args.enable:
+        avoid = sorted(set(avoid) - set(args.enable.split(',')))
 
     batches: List[BatchResult] = []
     engines: List[Engine] = []
@@ -249,6 +251,7 @@ def main(argv=None) -> int:
     parser.add_argument("--runs", type=int)
     parser.add_argument("--jobs", type=int)
     parser.add_argument("--no-shrink", action="store_true")
+    parser.add_argument("--enable", help="development only: features to switch back on")
     parser.add_argument("--avoid", help="development only: extra generator features to switch off (or all)")
     args = parser.parse_args(argv)
     tier = args.tier or common.tier()
